@@ -291,6 +291,34 @@ pub fn corpus() -> Vec<Item> {
         let b = mux(&[ftyp.clone(), BoxSpec::jxlp(0, false, SizeForm::S32, &acs[..m / 3]), BoxSpec::jxlp(1, false, SizeForm::S32, &acs[m / 3..2 * m / 3 + 1]), BoxSpec::new(b"xml ", SizeForm::S32, &xml), BoxSpec::jxlp(2, true, SizeForm::S32, &acs[2 * m / 3 + 1..])]);
         out.push(Item { name: "container-anim-jxlp3".into(), bytes: b, frames: an.frames, keyframes: an.keyframes, width: 4, height: 4 });
     }
+    // preview frame in front of the main frame
+    {
+        let mut img = ImageHeader::simple(6, 5, true, 8);
+        img.extra_fields = true;
+        img.preview = Some(PreviewHeader { width: 16, height: 16, div8: true, ratio: 0 });
+        let d = simple_desc(&img, 6, 5, 255, 11);
+        let main = encode_frame(&img, &d);
+        // the preview frame: a 16x16 cropped Modular frame
+        let mut pfh = FrameHeader::modular_lossless(&img);
+        pfh.have_crop = true;
+        pfh.width = 16;
+        pfh.height = 16;
+        let pd = FrameDesc { alt_tree: None, local_tree: false, fh: pfh, channels: planes(16, 16, 1, 255, 12), tree: Node::leaf(1), ans: false, transforms: vec![], toc_rev: false };
+        let preview = encode_frame(&img, &pd);
+        out.push(item("gray-6x5-with-preview", &img, vec![preview, main], 1));
+    }
+    // embedded ICC profile (hand-built, well-formed RGB matrix profile), prefix and ANS coded
+    for (k, ans) in [false, true].into_iter().enumerate() {
+        let profs = crate::c18::profiles(0, true);
+        let p = &profs.iter().find(|p| p.0 == "built-appl").unwrap().1;
+        let plan = jxlw::icc::Plan { tags: jxlw::icc::TagMode::Shortcuts, segs: vec![jxlw::icc::Seg::Raw(p.len() - 132 - 11 * 12)] };
+        let enc = jxlw::icc::encode(p, &plan).expect("icc plan");
+        let mut img = ImageHeader::simple(4, 3, false, 8);
+        img.colour_encoding = ColourEncoding { all_default: false, want_icc: true, ..ColourEncoding::srgb() };
+        img.icc_stream = Some(jxlw::icc::write_icc_stream(&enc, &CodeOpts { use_prefix: !ans, cluster_map: Some((0..41).map(|i| (i % 4) as u8).collect()), cfg: Some(jxlw::entropy::HybridCfg::new(8, 0, 0)), ..Default::default() }));
+        let d = simple_desc(&img, 4, 3, 255, 13 + k);
+        out.push(item(if ans { "rgb-4x3-icc-ans" } else { "rgb-4x3-icc-prefix" }, &img, vec![encode_frame(&img, &d)], 1));
+    }
     let _ = BitWriter::new();
     out
 }
